@@ -5,7 +5,9 @@ PROP = {'rule': 'rapid-generated cases. validating: a pod (QoS label in {LSE,LSR
          'optional pod-level requests; cpu from {absent, 0, 1m, 0.0005, 0.5, whole, whole+-1n/+-0.5m/+-1m, random milli/nano, other '
          'spellings}, memory with decimal/binary suffixes and fractions; batch/mid resources requested directly), as a create or as an '
          'update whose new object is the old one after 0-2 edits (QoS label, class label, priority value within/across ranges, '
-         'sub-priority label, resources, unrelated label); non-trivial = exactly one rule of the statement is broken, or nothing is '
+         'sub-priority label, resources, unrelated label) and both objects carry lifecycle metadata that must not matter (deletionTimestamp on '
+         'both / only the new object in ~50 % of updates, grace period, finalizers kept/removed/added, owner reference, status phase, '
+         'nodeName); non-trivial = exactly one rule of the statement is broken, or nothing is '
          'broken and the pod is BE/LSR/LSE or requests batch resources (a rule is decisive for the verdict). mutating: a pod (same '
          'quantity domains, limit-without-request / request-only / differing shapes, extended and unrelated resources declared directly, '
          'optional stale summary annotation) admitted against a fake cluster with one namespace, five PriorityClasses with values on and '
